@@ -479,3 +479,687 @@ async fn fee_of_an_nft_transaction_is_not_lost() {
         node_aborted
     );
 }
+
+/// C11: a peer's block dated ahead of the node's clock, accepted as tip, does not stop the consensus thread on its next timer tick
+/// (the bundler declines instead of asserting) — scenario of an independent audit
+#[tokio::test]
+#[serial_test::serial]
+async fn tip_dated_ahead_of_the_clock_does_not_stop_the_consensus_thread() {
+    #[allow(unused_imports)] use crate::core::consensus_thread::ConsensusEvent;
+    #[allow(unused_imports)] use crate::core::process::process_event::ProcessEvent;
+    #[allow(unused_imports)] use crate::core::util::crypto::generate_keys;
+    #[allow(unused_imports)] use crate::core::util::test::node_tester::test::NodeTester;
+    #[allow(unused_imports)] use crate::core::defs::NOLAN_PER_SAITO;
+    #[allow(unused_imports)] use crate::core::defs::PrintForLog;
+    #[allow(unused_imports)] use crate::core::consensus::block::Block;
+    #[allow(unused_imports)] use crate::core::util::crypto::hash;
+    #[allow(unused_imports)] use crate::core::consensus::mempool::Mempool;
+    use crate::core::consensus::block::BlockType;
+    use crate::core::consensus::transaction::Transaction;
+    use crate::core::consensus_thread::BLOCK_PRODUCING_TIMER;
+    use crate::core::defs::{SaitoSignature, Timestamp};
+    use ahash::AHashMap;
+    use futures::FutureExt;
+    use std::ops::Deref;
+    use std::panic::AssertUnwindSafe;
+    use std::time::Duration;
+
+    NodeTester::delete_data().await.unwrap();
+    let mut tester = NodeTester::default();
+    let public_key = tester.get_public_key().await;
+    tester
+        .set_issuance(vec![(public_key.to_base58(), 100_000 * NOLAN_PER_SAITO)])
+        .await
+        .unwrap();
+    tester.set_staking_enabled(false).await;
+    tester.init().await.unwrap();
+    tester.wait_till_block_id(1).await.unwrap();
+    let tx = tester
+        .create_transaction(10_000, 1000, public_key)
+        .await
+        .unwrap();
+    tester.add_transaction(tx).await;
+    tester.wait_till_block_id(2).await.unwrap();
+
+    // control: with only honest blocks in the chain the block producing timer handler returns normally
+    let control = AssertUnwindSafe(
+        tester
+            .consensus_thread
+            .process_timer_event(Duration::from_millis(BLOCK_PRODUCING_TIMER)),
+    )
+    .catch_unwind()
+    .await;
+    assert!(
+        control.is_ok(),
+        "setup: the timer handler must not panic on the honest chain"
+    );
+
+    // a remote block producer (its own key pair) builds block 3 on our tip. everything in the block is
+    // what an honest producer would write, except the timestamp, which it is free to choose: 10 years
+    // ahead of this node's clock
+    let (attacker_public_key, attacker_private_key) = generate_keys();
+    const TEN_YEARS_IN_MS: Timestamp = 10 * 365 * 24 * 3600 * 1000;
+    let node_time_now = tester.consensus_thread.timer.get_timestamp_in_ms();
+    let hostile_timestamp = node_time_now + TEN_YEARS_IN_MS;
+    let carried_tx = tester
+        .create_transaction(10_000, 1000, public_key)
+        .await
+        .unwrap();
+    let mut hostile_block;
+    {
+        let configs = tester.consensus_thread.config_lock.read().await;
+        let blockchain = tester.consensus_thread.blockchain_lock.read().await;
+        let mut txs: AHashMap<SaitoSignature, Transaction> = Default::default();
+        txs.insert(carried_tx.signature, carried_tx);
+        hostile_block = Block::create(
+            &mut txs,
+            blockchain.get_latest_block_hash(),
+            &blockchain,
+            hostile_timestamp,
+            &attacker_public_key,
+            &attacker_private_key,
+            None,
+            configs.deref(),
+            &tester.consensus_thread.storage,
+        )
+        .await
+        .unwrap();
+    }
+    hostile_block.generate().unwrap();
+    // it travels as bytes, like any fetched block
+    let mut hostile_block =
+        Block::deserialize_from_net(&hostile_block.serialize_for_net(BlockType::Full)).unwrap();
+    hostile_block.generate().unwrap();
+    let hostile_hash = hostile_block.hash;
+    assert_eq!(hostile_block.id, 3);
+    assert_eq!(hostile_block.timestamp, hostile_timestamp);
+
+    let delivered = AssertUnwindSafe(tester.consensus_thread.process_event(
+        ConsensusEvent::BlockFetched {
+            block: hostile_block,
+            peer_index: 1,
+        },
+    ))
+    .catch_unwind()
+    .await;
+    assert!(
+        delivered.is_ok(),
+        "setup: handling the fetched block itself must not panic"
+    );
+    {
+        let blockchain = tester.consensus_thread.blockchain_lock.read().await;
+        assert_eq!(
+            blockchain.get_latest_block_hash(),
+            hostile_hash,
+            "setup: the block dated 10 years ahead was accepted as the tip of the longest chain"
+        );
+        assert!(blockchain.get_latest_block().unwrap().timestamp > node_time_now);
+    }
+
+    // the next tick of the node's own block producing timer
+    let result = AssertUnwindSafe(
+        tester
+            .consensus_thread
+            .process_timer_event(Duration::from_millis(BLOCK_PRODUCING_TIMER)),
+    )
+    .catch_unwind()
+    .await;
+    if !(result.is_ok()) { witness(format!("ConsensusThread::process_timer_event panicked (Mempool::bundle_block asserts current_timestamp > previous_block_timestamp) after a peer's block 3 dated {} ms ahead of the node's clock was accepted as chain tip: one peer-supplied block kills the consensus thread on its next timer tick, instead of the block being rejected", TEN_YEARS_IN_MS)); }
+}
+
+/// C11: a decodable fetched buffer whose transactions name inputs of u64::MAX does not stop the verification thread
+/// (Block::generate sums saturate) — scenario of an independent audit
+#[tokio::test]
+#[serial_test::serial]
+async fn fetched_block_with_overflowing_fee_sums_does_not_stop_the_verification_thread() {
+    #[allow(unused_imports)] use crate::core::util::crypto::generate_keys;
+    #[allow(unused_imports)] use crate::core::util::test::node_tester::test::NodeTester;
+    use crate::core::consensus::block::{Block, BlockType};
+    use crate::core::consensus::slip::Slip;
+    use crate::core::consensus::transaction::Transaction;
+    use crate::core::defs::Currency;
+    use crate::core::io::network_event::NetworkEvent;
+    use crate::core::process::process_event::ProcessEvent;
+    use crate::core::verification_thread::VerifyRequest;
+    use futures::FutureExt;
+    use std::panic::AssertUnwindSafe;
+
+    let mut tester = NodeTester::default();
+    // peer 1 is connected (it does not even need to finish the handshake to have a block fetched from it
+    // counted against it)
+    tester
+        .routing_thread
+        .process_network_event(NetworkEvent::PeerConnectionResult {
+            result: Ok((1, None)),
+        })
+        .await;
+
+    let (attacker_public_key, _attacker_private_key) = generate_keys();
+    // a block buffer with two transactions, each naming one input of the given amount and no output:
+    // nothing has to exist or be signed, the numbers are only summed at this stage
+    let build_buffer = |amount_1: Currency, amount_2: Currency| -> Vec<u8> {
+        let mut block = Block::new();
+        block.id = 5;
+        block.previous_block_hash = [9; 32];
+        block.timestamp = 1_700_000_000_000;
+        block.creator = attacker_public_key;
+        for amount in [amount_1, amount_2] {
+            let mut tx = Transaction::default();
+            let mut input = Slip::default();
+            input.public_key = attacker_public_key;
+            input.amount = amount;
+            input.block_id = 1;
+            input.tx_ordinal = amount % 7;
+            tx.from.push(input);
+            block.transactions.push(tx);
+        }
+        block.serialize_for_net(BlockType::Full)
+    };
+
+    // control: small amounts. the buffer goes through the verification thread's handler normally
+    let control_buffer = build_buffer(1, 2);
+    assert!(Block::deserialize_from_net(&control_buffer).is_ok());
+    let control = AssertUnwindSafe(tester.verification_thread.process_event(
+        VerifyRequest::Block(control_buffer, 1, [1; 32], 5),
+    ))
+    .catch_unwind()
+    .await;
+    assert!(
+        control.is_ok(),
+        "setup: a fetched block buffer with small amounts must be handled normally"
+    );
+
+    // hostile: the same buffer, the two inputs claim u64::MAX nolan each
+    let hostile_buffer = build_buffer(Currency::MAX, Currency::MAX);
+    let decoded = Block::deserialize_from_net(&hostile_buffer);
+    assert!(
+        decoded.is_ok(),
+        "setup: the hostile buffer is a decodable block"
+    );
+    assert_eq!(decoded.unwrap().transactions.len(), 2);
+    let result = AssertUnwindSafe(tester.verification_thread.process_event(
+        VerifyRequest::Block(hostile_buffer, 1, [1; 32], 5),
+    ))
+    .catch_unwind()
+    .await;
+    if !(result.is_ok()) { witness(format!("VerificationThread::process_event panicked on a fetched block buffer from peer 1 whose two transactions each name an input of 18446744073709551615 nolan: Block::generate adds the per-transaction fees with an unchecked `cumulative_fees + total_fees` (overflow) before any validation, so one decodable buffer kills a verification thread instead of counting as an invalid block for the peer")); }
+}
+
+/// C11: a GhostChainRequest naming block id u64::MAX is answered, not overflowed on — scenario of an independent audit
+#[tokio::test]
+#[serial_test::serial]
+async fn ghost_chain_request_for_block_id_max_does_not_stop_the_routing_thread() {
+    #[allow(unused_imports)] use crate::core::util::crypto::generate_keys;
+    #[allow(unused_imports)] use crate::core::util::test::node_tester::test::NodeTester;
+    #[allow(unused_imports)] use crate::core::defs::NOLAN_PER_SAITO;
+    use crate::core::defs::PrintForLog;
+    use crate::core::io::network_event::NetworkEvent;
+    use crate::core::consensus::peers::peer::PeerStatus;
+    use crate::core::msg::message::Message;
+    use crate::core::process::process_event::ProcessEvent;
+    use futures::FutureExt;
+    use std::panic::AssertUnwindSafe;
+
+    NodeTester::delete_data().await.unwrap();
+    let mut tester = NodeTester::default();
+    let public_key = tester.get_public_key().await;
+    tester
+        .set_issuance(vec![(public_key.to_base58(), 100_000 * NOLAN_PER_SAITO)])
+        .await
+        .unwrap();
+    tester.set_staking_enabled(false).await;
+    tester.init().await.unwrap();
+    tester.wait_till_block_id(1).await.unwrap();
+    let tx = tester
+        .create_transaction(10_000, 1000, public_key)
+        .await
+        .unwrap();
+    tester.add_transaction(tx).await;
+    tester.wait_till_block_id(2).await.unwrap();
+
+    // peer 1 connects and authenticates under its own key (the state Network::handle_handshake_response
+    // leaves behind is written directly: the test io handler cannot run a handshake)
+    tester
+        .routing_thread
+        .process_network_event(NetworkEvent::PeerConnectionResult {
+            result: Ok((1, None)),
+        })
+        .await;
+    let (peer_public_key, _peer_private_key) = generate_keys();
+    {
+        let mut peers = tester.routing_thread.network.peer_lock.write().await;
+        let peer = peers.find_peer_by_index_mut(1).unwrap();
+        peer.public_key = Some(peer_public_key);
+        peer.peer_status = PeerStatus::Connected;
+        peer.challenge_for_peer = None;
+        peers.address_to_peers.insert(peer_public_key, 1);
+    }
+
+    // control: an ordinary ghost chain request (the peer is at block 1) is answered
+    let block_1_hash = {
+        let blockchain = tester.routing_thread.blockchain_lock.read().await;
+        blockchain
+            .blockring
+            .get_longest_chain_block_hash_at_block_id(1)
+            .unwrap()
+    };
+    let control = AssertUnwindSafe(tester.routing_thread.process_network_event(
+        NetworkEvent::IncomingNetworkMessage {
+            peer_index: 1,
+            buffer: Message::GhostChainRequest(1, block_1_hash, [0; 32]).serialize(),
+        },
+    ))
+    .catch_unwind()
+    .await;
+    assert!(
+        control.is_ok(),
+        "setup: an ordinary ghost chain request must be handled normally"
+    );
+
+    // the hostile request: 72 well-formed bytes, the peer claims to be at block u64::MAX on a fork
+    // this node does not know
+    let fork_id = [0x5a; 32];
+    {
+        let blockchain = tester.routing_thread.blockchain_lock.read().await;
+        assert_eq!(
+            blockchain.generate_last_shared_ancestor(u64::MAX, fork_id),
+            0,
+            "setup: no shared ancestor is found for the claimed fork"
+        );
+    }
+    let result = AssertUnwindSafe(tester.routing_thread.process_network_event(
+        NetworkEvent::IncomingNetworkMessage {
+            peer_index: 1,
+            buffer: Message::GhostChainRequest(u64::MAX, [0; 32], fork_id).serialize(),
+        },
+    ))
+    .catch_unwind()
+    .await;
+    if !(result.is_ok()) { witness(format!("RoutingThread::process_network_event panicked on a GhostChainRequest with block_id = u64::MAX from authenticated peer 1: generate_ghost_chain falls back to last_shared_ancestor = 18446744073709551615 and computes last_shared_ancestor + 1 (overflow), so a single 73 byte message kills the routing thread instead of being answered with an empty ghost chain")); }
+}
+
+/// C11: the 101st key-list update within a minute from a peer that never completed the handshake is refused by the rate limiter,
+/// with debug logging on as well — scenario of an independent audit
+#[tokio::test]
+#[serial_test::serial]
+async fn key_list_flood_from_an_unauthenticated_peer_is_refused_without_a_panic() {
+    #[allow(unused_imports)] use crate::core::util::crypto::generate_keys;
+    #[allow(unused_imports)] use crate::core::util::test::node_tester::test::NodeTester;
+    use crate::core::io::network_event::NetworkEvent;
+    use crate::core::msg::message::Message;
+    use crate::core::process::keep_time::Timer;
+    use crate::core::process::process_event::ProcessEvent;
+    use crate::core::util::test::node_tester::test::TestTimeKeeper;
+    use crate::core::process::keep_time::KeepTime;
+    use futures::FutureExt;
+    use std::panic::AssertUnwindSafe;
+    use std::sync::Arc;
+
+    // (a clock that is not hastened, so that the 60 second window of the key list limiter is 60 seconds)
+    let timer = Timer {
+        time_reader: Arc::new(TestTimeKeeper {}),
+        hasten_multiplier: 1,
+        start_time: TestTimeKeeper {}.get_timestamp_in_ms(),
+    };
+    let mut tester = NodeTester::new(100, None, Some(timer));
+    // peer 1 connects and never answers the handshake: it has no public key
+    tester
+        .routing_thread
+        .process_network_event(NetworkEvent::PeerConnectionResult {
+            result: Ok((1, None)),
+        })
+        .await;
+    {
+        let peers = tester.routing_thread.network.peer_lock.read().await;
+        assert!(peers.find_peer_by_index(1).unwrap().public_key.is_none());
+    }
+    let (some_key, _) = generate_keys();
+    let buffer = Message::KeyListUpdate(vec![some_key]).serialize();
+
+    // the first 100 key list updates are within the limit of the 60 second window and are handled normally
+    for _ in 0..100 {
+        tester
+            .routing_thread
+            .process_network_event(NetworkEvent::IncomingNetworkMessage {
+                peer_index: 1,
+                buffer: buffer.clone(),
+            })
+            .await;
+    }
+    {
+        let peers = tester.routing_thread.network.peer_lock.read().await;
+        assert_eq!(
+            peers.find_peer_by_index(1).unwrap().key_list,
+            vec![some_key],
+            "setup: key list updates of the unauthenticated peer are being processed"
+        );
+    }
+
+    // the node runs with debug logging (RUST_LOG=debug): the arguments of debug!() are evaluated
+    let previous_level = log::max_level();
+    log::set_max_level(log::LevelFilter::Debug);
+    let result = AssertUnwindSafe(tester.routing_thread.process_network_event(
+        NetworkEvent::IncomingNetworkMessage {
+            peer_index: 1,
+            buffer: buffer.clone(),
+        },
+    ))
+    .catch_unwind()
+    .await;
+    log::set_max_level(previous_level);
+    if !(result.is_ok()) { witness(format!("RoutingThread::process_network_event panicked on the 101st KeyListUpdate within a minute from peer 1, which never completed the handshake: the rate-limit branch of Network::handle_received_key_list formats peer.public_key.unwrap() (None for an unauthenticated peer), so with debug logging on the rate limiter itself kills the routing thread instead of refusing the message")); }
+}
+
+/// C11/C16: garbage bytes one peer returns for a block do not erase the entry an honest peer has queued for it (rejected input
+/// leaves honest peers' state alone; the block the node lacks is still requested) — scenario of an independent audit
+#[tokio::test]
+#[serial_test::serial]
+async fn garbage_returned_for_a_block_leaves_the_honest_peers_entry_queued() {
+    #[allow(unused_imports)] use crate::core::util::crypto::generate_keys;
+    #[allow(unused_imports)] use crate::core::util::test::node_tester::test::NodeTester;
+    #[allow(unused_imports)] use crate::core::consensus::block::Block;
+    use crate::core::consensus::peers::peer::PeerStatus;
+    use crate::core::consensus::peers::peer_service::PeerService;
+    use crate::core::consensus::wallet::Wallet;
+    use crate::core::defs::{BlockId, PeerIndex, SaitoHash};
+    use crate::core::io::interface_io::{InterfaceEvent, InterfaceIO};
+    use crate::core::io::network_event::NetworkEvent;
+    use crate::core::msg::message::Message;
+    use crate::core::process::process_event::ProcessEvent;
+    use crate::core::routing_thread::RoutingEvent;
+    use crate::core::verification_thread::VerifyRequest;
+    use async_trait::async_trait;
+    use std::io::Error;
+    use std::sync::{Arc, Mutex};
+
+    // the network side of the node: block fetches are recorded instead of being sent out
+    #[derive(Debug)]
+    struct AuditIo {
+        fetches: Arc<Mutex<Vec<(PeerIndex, SaitoHash)>>>,
+    }
+    #[async_trait]
+    impl InterfaceIO for AuditIo {
+        async fn send_message(&self, _peer_index: u64, _buffer: &[u8]) -> Result<(), Error> {
+            Ok(())
+        }
+        async fn send_message_to_all(
+            &self,
+            _buffer: &[u8],
+            _excluded_peers: Vec<u64>,
+        ) -> Result<(), Error> {
+            Ok(())
+        }
+        async fn connect_to_peer(
+            &mut self,
+            _url: String,
+            _peer_index: PeerIndex,
+        ) -> Result<(), Error> {
+            Ok(())
+        }
+        async fn disconnect_from_peer(&self, _peer_index: u64) -> Result<(), Error> {
+            Ok(())
+        }
+        async fn fetch_block_from_peer(
+            &self,
+            block_hash: SaitoHash,
+            peer_index: u64,
+            _url: &str,
+            _block_id: BlockId,
+        ) -> Result<(), Error> {
+            self.fetches.lock().unwrap().push((peer_index, block_hash));
+            Ok(())
+        }
+        async fn write_value(&self, _key: &str, _value: &[u8]) -> Result<(), Error> {
+            Ok(())
+        }
+        async fn append_value(&mut self, _key: &str, _value: &[u8]) -> Result<(), Error> {
+            Ok(())
+        }
+        async fn flush_data(&mut self, _key: &str) -> Result<(), Error> {
+            Ok(())
+        }
+        async fn read_value(&self, _key: &str) -> Result<Vec<u8>, Error> {
+            Ok(vec![])
+        }
+        async fn load_block_file_list(&self) -> Result<Vec<String>, Error> {
+            Ok(vec![])
+        }
+        async fn is_existing_file(&self, _key: &str) -> bool {
+            false
+        }
+        async fn remove_value(&self, _key: &str) -> Result<(), Error> {
+            Ok(())
+        }
+        fn get_block_dir(&self) -> String {
+            "./data/test/blocks/".to_string()
+        }
+        fn get_checkpoint_dir(&self) -> String {
+            "./data/test/checkpoints/".to_string()
+        }
+        fn ensure_block_directory_exists(&self, _block_dir: &str) -> Result<(), Error> {
+            Ok(())
+        }
+        async fn process_api_call(&self, _b: Vec<u8>, _m: u32, _p: PeerIndex) {}
+        async fn process_api_success(&self, _b: Vec<u8>, _m: u32, _p: PeerIndex) {}
+        async fn process_api_error(&self, _b: Vec<u8>, _m: u32, _p: PeerIndex) {}
+        fn send_interface_event(&self, _event: InterfaceEvent) {}
+        async fn save_wallet(&self, _wallet: &mut Wallet) -> Result<(), Error> {
+            Ok(())
+        }
+        async fn load_wallet(&self, _wallet: &mut Wallet) -> Result<(), Error> {
+            Ok(())
+        }
+        fn get_my_services(&self) -> Vec<PeerService> {
+            vec![]
+        }
+    }
+
+    const HONEST: PeerIndex = 1;
+    const HOSTILE: PeerIndex = 2;
+    let hash_of = |id: u64| -> SaitoHash { [id as u8; 32] };
+
+    // honest peer 1 announces blocks 1..=11 (10 fetches per peer run at a time, so block 11 waits in the
+    // queue of peer 1). with `hostile_delivery`, peer 2 announces block 11 too and answers the fetch with
+    // 10 bytes of garbage. then block 1 arrives from peer 1 and is added, which frees a fetch slot of peer 1.
+    // returns whether block 11 was ever requested from honest peer 1
+    async fn run(hostile_delivery: bool, hash_of: &dyn Fn(u64) -> SaitoHash) -> bool {
+        let fetches: Arc<Mutex<Vec<(PeerIndex, SaitoHash)>>> = Default::default();
+        let mut tester = NodeTester::default();
+        tester.routing_thread.network.io_interface = Box::new(AuditIo {
+            fetches: fetches.clone(),
+        });
+        for peer_index in [HONEST, HOSTILE] {
+            tester
+                .routing_thread
+                .process_network_event(NetworkEvent::PeerConnectionResult {
+                    result: Ok((peer_index, None)),
+                })
+                .await;
+            // (the state a completed handshake leaves behind)
+            let mut peers = tester.routing_thread.network.peer_lock.write().await;
+            let peer = peers.find_peer_by_index_mut(peer_index).unwrap();
+            peer.public_key = Some(generate_keys().0);
+            peer.peer_status = PeerStatus::Connected;
+            peer.challenge_for_peer = None;
+            peer.block_fetch_url = format!("http://peer{}", peer_index);
+        }
+        for id in 1..=11u64 {
+            tester
+                .routing_thread
+                .process_network_event(NetworkEvent::IncomingNetworkMessage {
+                    peer_index: HONEST,
+                    buffer: Message::BlockHeaderHash(hash_of(id), id).serialize(),
+                })
+                .await;
+        }
+        assert_eq!(
+            fetches.lock().unwrap().len(),
+            10,
+            "setup: 10 fetches are running against peer 1"
+        );
+        assert!(
+            !fetches.lock().unwrap().contains(&(HONEST, hash_of(11))),
+            "setup: block 11 is queued behind them"
+        );
+        assert_eq!(
+            tester
+                .routing_thread
+                .blockchain_sync_state
+                .get_fetching_block_count(),
+            11
+        );
+
+        if hostile_delivery {
+            tester
+                .routing_thread
+                .process_network_event(NetworkEvent::IncomingNetworkMessage {
+                    peer_index: HOSTILE,
+                    buffer: Message::BlockHeaderHash(hash_of(11), 11).serialize(),
+                })
+                .await;
+            assert!(
+                fetches.lock().unwrap().contains(&(HOSTILE, hash_of(11))),
+                "setup: block 11 is being fetched from peer 2"
+            );
+            let garbage = vec![0xab; 10];
+            tester
+                .routing_thread
+                .process_network_event(NetworkEvent::BlockFetched {
+                    block_hash: hash_of(11),
+                    block_id: 11,
+                    peer_index: HOSTILE,
+                    buffer: garbage.clone(),
+                })
+                .await;
+            // the verification thread refuses the buffer: nothing reaches the blockchain
+            tester
+                .verification_thread
+                .process_event(VerifyRequest::Block(garbage, HOSTILE, hash_of(11), 11))
+                .await;
+            let blockchain = tester.routing_thread.blockchain_lock.read().await;
+            assert!(
+                !blockchain.blocks.contains_key(&hash_of(11)),
+                "setup: the garbage was rejected"
+            );
+        }
+
+        // block 1 from peer 1 arrives and is added to the chain: the consensus thread reports it, a fetch
+        // slot of peer 1 is free again
+        tester
+            .routing_thread
+            .process_event(RoutingEvent::BlockchainUpdated(hash_of(1)))
+            .await;
+        let requested = fetches.lock().unwrap().contains(&(HONEST, hash_of(11)));
+        requested
+    }
+
+    assert!(
+        run(false, &hash_of).await,
+        "control: without the hostile peer, block 11 is requested from peer 1 as soon as a slot is free"
+    );
+    if !(run(true, &hash_of).await) { witness(format!("block 11 was never requested from honest peer 1: the 10 garbage bytes peer 2 returned for it were marked as 'fetched' in RoutingThread::process_network_event before verification, which removed block 11 from the fetch queue of every peer (11 queued entries of peer 1 became 10), so rejected input of one peer erased sync state that belongs to an honest peer")); }
+}
+
+/// C10: the issuance file decoder answers every malformed file (truncated line, blank line, short key, unknown slip type, non-UTF-8
+/// byte) with a value or nothing, never a panic — scenario of an independent audit
+#[tokio::test]
+#[serial_test::serial]
+async fn issuance_file_decoder_is_total() {
+    #[allow(unused_imports)] use crate::core::util::crypto::generate_keys;
+    #[allow(unused_imports)] use crate::core::util::test::test_manager::test::TestManager;
+    #[allow(unused_imports)] use crate::core::defs::PrintForLog;
+    use futures::FutureExt;
+    use std::panic::AssertUnwindSafe;
+
+    let t = TestManager::default();
+    let key = crate::core::util::crypto::generate_keys().0.to_base58();
+    let key = key.as_str();
+    std::fs::create_dir_all("./data").unwrap();
+    let path = "./data/audit_demo_issuance_file.txt";
+
+    // control: a well-formed issuance file of one line decodes to one slip of 100000
+    std::fs::write(path, format!("100000\t{}\tNormal\n", key)).unwrap();
+    let slips = t.storage.get_token_supply_slips_from_disk_path(path).await;
+    assert_eq!(slips.len(), 1, "control: the honest one-line file must decode to one slip");
+    assert_eq!(slips[0].amount, 100000);
+
+    // hostile: truncations and single-field corruptions of that same valid line
+    let valid_line = format!("100000\t{}\tNormal\n", key);
+    let mut cases: Vec<(&str, Vec<u8>)> = vec![];
+    // cut right after the key (the type field is lost)
+    cases.push((
+        "line cut after the key",
+        valid_line.as_bytes()[..valid_line.len() - 8].to_vec(),
+    ));
+    // cut right after the amount
+    cases.push(("line cut after the amount", b"100000\n".to_vec()));
+    // a line holding only a blank
+    cases.push(("line holding one blank", b" \n".to_vec()));
+    // key field shortened by one character: decodes to fewer than 33 bytes
+    cases.push((
+        "key one character short",
+        format!("100000\t{}\tNormal\n", &key[..key.len() - 1]).into_bytes(),
+    ));
+    // type field corrupted
+    cases.push((
+        "unknown slip type",
+        format!("100000\t{}\tNormaX\n", key).into_bytes(),
+    ));
+    // one byte of the file is not UTF-8
+    let mut non_utf8 = valid_line.clone().into_bytes();
+    non_utf8[0] = 0xff;
+    cases.push(("first byte set to 0xff", non_utf8));
+
+    let mut panicked: Vec<&str> = vec![];
+    for (name, bytes) in cases.iter() {
+        std::fs::write(path, bytes).unwrap();
+        let result = AssertUnwindSafe(t.storage.get_token_supply_slips_from_disk_path(path))
+            .catch_unwind()
+            .await;
+        if result.is_err() {
+            panicked.push(name);
+        }
+    }
+    let _ = std::fs::remove_file(path);
+
+    if !(panicked.is_empty()) { witness(format!("the issuance file decoder (Storage::get_token_supply_slips_from_disk_path) panicked on {} of {} malformed files read from disk {:?}; a decoder fed bytes from disk must return a value or an error for every byte string, never panic", panicked.len(), cases.len(), panicked)); }
+}
+
+/// C10: a checkpoint file that is not text is no checkpoint, not a panic — scenario of an independent audit
+#[tokio::test]
+#[serial_test::serial]
+async fn checkpoint_file_decoder_is_total() {
+    #[allow(unused_imports)] use crate::core::util::test::test_manager::test::TestManager;
+    #[allow(unused_imports)] use crate::core::defs::PrintForLog;
+    #[allow(unused_imports)] use crate::core::defs::SaitoHash;
+    use futures::FutureExt;
+    use std::panic::AssertUnwindSafe;
+
+    let t = TestManager::default();
+    let block_hash: SaitoHash = [7; 32];
+    let block_id = 4242;
+    let dir = t.storage.io_interface.get_checkpoint_dir();
+    std::fs::create_dir_all(&dir).unwrap();
+    let path = format!("{}{}-{}.chk", dir, block_id, block_hash.to_hex());
+
+    // control: a well-formed checkpoint file (one utxo key in hex per line) decodes to one key
+    let key_hex = hex::encode([3u8; 59]);
+    std::fs::write(&path, format!("{}\n", key_hex)).unwrap();
+    let keys = t.storage.load_checkpoint_file(&block_hash, block_id).await;
+    assert_eq!(
+        keys.map(|k| k.len()),
+        Some(1),
+        "control: the honest checkpoint file must decode to one key"
+    );
+
+    // hostile: the same file with its first byte set to 0xff (no longer UTF-8)
+    let mut bytes = format!("{}\n", key_hex).into_bytes();
+    bytes[0] = 0xff;
+    std::fs::write(&path, &bytes).unwrap();
+    let result = AssertUnwindSafe(t.storage.load_checkpoint_file(&block_hash, block_id))
+        .catch_unwind()
+        .await;
+    let _ = std::fs::remove_file(&path);
+
+    if !(result.is_ok()) { witness(format!("the checkpoint file decoder (Storage::load_checkpoint_file) panicked on a {}-byte checkpoint file whose first byte is 0xff (String::from_utf8(..).unwrap()); a decoder fed bytes from disk must return a value or an error, never panic", bytes.len())); }
+}
